@@ -185,7 +185,7 @@ package dispatch
 // the call never returns without a successful insert unless it reported the refusal, and maintenance removes and
 // un-counts only groups it observed destroyed.
 //@ func (*Dispatcher).groupAlert
-//@   props C06
+//@   props C06 C05
 //@   abstract
 //@   nosafe
 //@   requires alert != nil && route != nil
